@@ -13,6 +13,8 @@ type c03Height struct {
 	response  map[byte]Hash
 	commit    *Payload
 	precommit *Payload
+	adoptedC  bool // commit is a vote of an earlier incarnation that came back to the node
+	adoptedP  bool // same for precommit
 	lockView  byte
 	locked    bool
 	lastView  byte
@@ -184,8 +186,20 @@ func (o *OracleC03) AfterCall(n *Node, st *Step) {
 	// broadcasts later at this height must be identical to it.
 	if n.kind == FAmnesia && n.inc > 1 && n.d.MyIndex >= 0 {
 		r := o.rec(n, n.d.BlockIndex)
+		// ... as long as the node keeps it: if the library itself drops it again (it does not
+		// verify against the proposal the node holds now, e.g. its own second proposal for the
+		// view - finding L1), nothing obliges this incarnation to it any more.
+		if r.adoptedC && n.d.CommitPayloads[n.d.MyIndex] == nil {
+			r.commit, r.adoptedC = nil, false
+			o.s.note("restarted_node_dropped_recovered_commit")
+		}
+		if r.adoptedP && n.d.PreCommitPayloads[n.d.MyIndex] == nil {
+			r.precommit, r.adoptedP = nil, false
+			o.s.note("restarted_node_dropped_recovered_precommit")
+		}
 		if p, ok := n.d.CommitPayloads[n.d.MyIndex].(*Payload); ok && p != nil && r.commit == nil {
 			r.commit = p
+			r.adoptedC = true
 			o.s.note("restarted_node_recovered_own_commit")
 			if p.V != n.d.ViewNumber {
 				o.s.note("restarted_node_recovered_own_commit_of_lower_view")
@@ -193,6 +207,7 @@ func (o *OracleC03) AfterCall(n *Node, st *Step) {
 		}
 		if p, ok := n.d.PreCommitPayloads[n.d.MyIndex].(*Payload); ok && p != nil && r.precommit == nil {
 			r.precommit = p
+			r.adoptedP = true
 			o.s.note("restarted_node_recovered_own_precommit")
 			if p.V != n.d.ViewNumber {
 				o.s.note("restarted_node_recovered_own_precommit_of_lower_view")
